@@ -83,12 +83,21 @@ def safe_execute(mod, scn, keep_log=False):
         if site:
             res = {'violations': [{'clause': 'hang', 'msg': 'no progress for %ds wall inside %s' % (RUN_WALL_LIMIT_S, site),
                                    'feat': {'site': site}}], 'stats': {}, 'nontrivial': True, 'digest': 'hang'}
+        elif kernel.CURRENT is not None and kernel.CURRENT.events_run > 200_000:
+            # the alarm fired in the simulator's own loop while it was serving an endless stream of events of the simulated system
+            res = {'violations': [{'clause': 'runaway', 'msg': '%d simulator events in %d s of wall time and no end: the stacks keep reacting to each other' % (
+                kernel.CURRENT.events_run, RUN_WALL_LIMIT_S), 'feat': {}}], 'stats': {}, 'nontrivial': True, 'digest': 'runaway'}
         else:
             res = {'violations': [], 'harness': 'run exceeded wall limit outside library code:\n' + traceback.format_exc(),
                    'stats': {}, 'nontrivial': False, 'digest': 'timeout'}
     except kernel.LibraryHang as e:
         res = {'violations': [{'clause': 'hang', 'msg': 'thread %s made no progress for %.0f s of wall time inside %s (endless or super-linear loop)' % (
             e.thread, 20.0, e.site), 'feat': {'site': e.site}}], 'stats': {}, 'nontrivial': True, 'digest': 'hang'}
+    except kernel.EventBudgetExceeded as e:
+        # the simulated system keeps producing events without end (frames answering frames): unbounded activity of the code under
+        # test, not a simulator failure - no scenario of any check comes near the budget on a tree where the stack settles
+        res = {'violations': [{'clause': 'runaway', 'msg': 'more than %d simulator events in one run: the stacks keep reacting to each other without end' % e.budget,
+                               'feat': {}}], 'stats': {}, 'nontrivial': True, 'digest': 'runaway'}
     except kernel.HarnessError as e:
         res = {'violations': [], 'harness': 'HarnessError: %s\n%s' % (e, traceback.format_exc()), 'stats': {},
                'nontrivial': False, 'digest': 'harness'}
@@ -227,8 +236,8 @@ def minimise(mod, scn, sig, budget_s=90.0):
     return cur, tried
 
 
-def write_replay(mod, scn, sig, pv, master, index, original_seed):
-    res = safe_execute(mod, copy.deepcopy(scn))
+def write_replay(mod, scn, sig, pv, master, index, original_seed, rerun=True):
+    res = safe_execute(mod, copy.deepcopy(scn)) if rerun else {'digest': pv['clause']}
     d = REPLAY_DIR
     os.makedirs(d, exist_ok=True)
     h = hashlib.sha256(sig.encode()).hexdigest()[:10]
@@ -420,11 +429,16 @@ def explore(mod, tier, master, runs_override=None, workers=None, no_selftest=Fal
         if pv is None:
             new.append((sig, None, len(items), None, i))
             continue
-        if minimised < 5:
+        slow = pv['clause'] in ('hang', 'runaway')      # every execution of such a scenario costs 20 - 60 s of wall time: reported as found
+        if minimised < 5 and not slow:
             small, tried = minimise(mod, scn, sig, budget_s=60.0 if tier == 'quick' else 180.0)
             minimised += 1
         else:
             small, tried = scn, 0
+        if slow:
+            path = write_replay(mod, small, sig, pv, master, i, scn.get('seed'), rerun=False)
+            new.append((sig, pv, len(items), path, i))
+            continue
         res = safe_execute(mod, copy.deepcopy(small))
         same = [v for v in (res.get('violations') or []) if signature(mod, small, v) == sig]
         pv2 = same[0] if same else pv
